@@ -61,9 +61,12 @@ Definition file_named (p : pkg) (n : string) : list tspec :=
   | None => []
   end.
 
-(* -file must be a .go file of the package directory *)
+(* -file must be an existing .go file below the package directory.  When it is not
+   one of the files of the package (a _test.go file, a file excluded by a build
+   constraint, a file of a sub-directory) no declaration of it belongs to the
+   package, so "the eligible types declared in f.go" are none: nothing is generated. *)
 Definition file_arg_ok (fl : cflags) (p : pkg) : bool :=
-  (fl_file fl =? "") || (ends_with ".go" (fl_file fl) && mem (fl_file fl) (map f_name (p_files p))).
+  (fl_file fl =? "") || (ends_with ".go" (fl_file fl) && mem (fl_file fl) (map f_name (p_files p) ++ p_others p)%list).
 
 (* what a command line must produce *)
 Definition spec (c : subcmd) (fl : cflags) (p : pkg) : expect :=
